@@ -117,6 +117,10 @@ class C03(Prop):
                     it[3] = g.choice(["", "d", "xy"])
                     if isinstance(it[2], str):
                         it[2] = g.choice(["", "v", "ab"])
+        if g.random() < 0.1:
+            # an extra ~Well item whose mnemonic is a mixed-case spelling of one of the four names with their own 1.2 layout
+            secs["well"].insert(g.randint(0, len(secs["well"])), [g.choice(["Stop", "Null", "Strt", "Step", "nUlL"]), g.choice(["", "M"]),
+                                                                   g.choice(["TD reached", 12.5, "x"]), g.choice(["Reason logging stopped", "d", ""])])
         if g.random() < 0.12:
             # a second NULL item (duplicate of one of the four ~Well mnemonics with their own 1.2 layout)
             secs["well"].insert(g.randint(0, len(secs["well"])), ["NULL", "", g.choice([-999.2500001234, -9999, "none"]), g.choice(["", "x", "second null"])])
